@@ -70,12 +70,19 @@ def load_registry(prop=None):
     process-wide and were developed per property, so they must not leak into another property's proof."""
     R = Registry()
     wanted = None if prop is None else {prop, *depends_closure(prop)}
+    mods = []
     for pid in ALL_PROPS:
         exists, _, has_ext = _module_info(pid)
         if not exists or (wanted is not None and has_ext and pid not in wanted):
             continue
         m = importlib.import_module(f"contracts.{pid}")
         m.register(R)
+        mods.append(m)
+    for m in mods:
+        # optional second pass, run when every module has registered: a module may derive contracts from the contracts
+        # of the properties it DEPENDS on (C03: refinement clauses "proved postconditions ==> step contract")
+        if hasattr(m, "finalize"):
+            m.finalize(R, prop)
     return R
 
 
